@@ -19,6 +19,7 @@ PHASES = ("idle", "in-flight", "awaiting-response", "queued", "reset-in-progress
 KINDS = ("error", "rstack", "silent", "lost-exc", "eof", "close")
 ERR_CODES = (0x51, 0x52, 0x00, 0x02, 0x53, 0xFF)
 RST_CODES = (0x00, 0x01, 0x02, 0x03, 0x06, 0x09, 0x0C, 0x51, 0x81, 0xFF)
+ALL_CODES = tuple(x for x in range(256) if x != 0x0B)
 T_BOUND = 10.0 + 1.6 + 4 * 3.2 + 1.0  # command timeout + the link's acknowledgement timeouts (+ slack)
 
 
@@ -29,7 +30,12 @@ class Failure(Harness):
                  "AshProtocol._write_frame", "Gateway.reset_received", "Gateway.connection_lost", "Gateway.eof_received", "Gateway.close",
                  "EZSP.enter_failed_state", "EZSP.connection_lost", "EZSP.close", "EZSP._command", "EZSP.stop_ezsp", "ProtocolHandler.command")
 
-    def run(self, ctx, versions=(4, 8, 13), err_codes=ERR_CODES, rst_codes=RST_CODES, phases=PHASES):
+    def must_reach_for(self, params):
+        ph = params.get("phases", PHASES)
+        return [m for m in self.must_reach if m != "queued-ended" or "queued" in ph]
+
+    def run(self, ctx, versions=(4, 8, 13), codes="boundary", phases=PHASES):
+        err_codes, rst_codes = (ERR_CODES, RST_CODES) if codes == "boundary" else (ALL_CODES, ALL_CODES)
         V = versions[ctx.choice("version", len(versions))]
         phase = phases[ctx.choice("phase", len(phases))]
         kind = KINDS[ctx.choice("kind", len(KINDS))]
@@ -160,11 +166,11 @@ def main(tier):
     ]
     if tier == "quick":
         c.run("checks.c10:FAILURE", {"versions": [4, 8, 13, 14]})
-        c.run("checks.c10:FAILURE", {"versions": [8], "err_codes": [x for x in range(256) if x != 0x0B], "rst_codes": [x for x in range(256) if x != 0x0B], "phases": ["awaiting-response", "reset-in-progress"]})
+        c.run("checks.c10:FAILURE", {"versions": [8], "codes": "all", "phases": ["awaiting-response", "reset-in-progress"]})
         c.out_of_bounds += ["failure instants other than the six phases", "all 255 ERROR / RSTACK codes only for version 8 in two phases (boundary sets elsewhere)", "versions other than 4, 8, 13, 14"]
     else:
         c.run("checks.c10:FAILURE", {"versions": [4, 5, 8, 13, 14]})
-        c.run("checks.c10:FAILURE", {"versions": [8], "err_codes": [x for x in range(256) if x != 0x0B], "rst_codes": [x for x in range(256) if x != 0x0B], "phases": ["idle", "awaiting-response", "reset-in-progress"]})
+        c.run("checks.c10:FAILURE", {"versions": [8], "codes": "all", "phases": ["idle", "awaiting-response", "queued", "reset-in-progress"]})
         c.out_of_bounds += ["failure instants other than the six phases"]
     return c.finish()
 
